@@ -344,8 +344,10 @@ func (s *spanScreen) writeString(text string, width int, merge bool, mode TextRe
 		}
 	}
 	sp := Span{Style: s.style, Text: text, Width: width}
-	s.rawWriteSpan(s.cursorPos.X, s.cursorPos.Y, sp, CRText)
-	s.moveCursor(width, 0, true, true)
+	// The cursor ends after the text, also when the text was inserted after a
+	// wide character (so the outcome does not depend on how a run is cut).
+	shift := s.writeSpanAt(s.cursorPos.X, s.cursorPos.Y, sp, CRText)
+	s.moveCursor(width+shift, 0, true, true)
 }
 
 // replaceInvalidUTF8 substitutes U+FFFD for every byte that is not part of a
@@ -376,7 +378,7 @@ func (s *spanScreen) insertRunes(b []rune) {
 	}
 
 	line := &s.lines[y]
-	truncateLine(line, s.size.X-n, s.textMode)
+	truncateLine(line, s.size.X-n, s.style, s.textMode)
 	insertSpan(line, s.cursorPos.X, Span{Style: s.style, Rune: ' ', Width: n}, s.textMode)
 
 	s.rawWriteRunes(s.cursorPos.X, s.cursorPos.Y, b[:n], CRText)
@@ -387,14 +389,30 @@ func (s *spanScreen) rawWriteRunes(x int, y int, b []rune, cr ChangeReason) {
 }
 
 func (s *spanScreen) rawWriteSpan(x int, y int, sp Span, cr ChangeReason) {
+	s.writeSpanAt(x, y, sp, cr)
+}
+
+// writeSpanAt is rawWriteSpan; it reports by how many cells the span landed
+// to the right of x because it was inserted after a wide character.
+func (s *spanScreen) writeSpanAt(x int, y int, sp Span, cr ChangeReason) int {
 	if sp.Width <= 0 {
-		return
+		return 0
 	}
 	if y >= s.size.Y || x+sp.Width > s.size.X {
 		panic(fmt.Sprintf("rawWriteSpan out of range: %v  %v,%v,%v %v\n", s.size, x, y, x+sp.Width, sp.Width))
 	}
-	replaceRange(&s.lines[y], x, sp.Width, sp, s.textMode)
+	line := &s.lines[y]
+	// Text written on the second cell of a wide character is inserted after
+	// it; an erase there blanks the character.
+	shift := replaceRangeWide(line, x, sp.Width, sp, s.textMode, cr == CRText)
+	if lineCellWidth(line) > s.size.X {
+		// the insert pushed the rest of the row to the right: cut it back
+		truncateLine(line, s.size.X, s.style, s.textMode)
+		s.frontend.RegionChanged(Region{Y: y, Y2: y + 1, X: 0, X2: s.size.X}, cr)
+		return shift
+	}
 	s.frontend.RegionChanged(Region{Y: y, Y2: y + 1, X: x, X2: x + sp.Width}, cr)
+	return shift
 }
 
 func (s *spanScreen) rawWriteRune(x int, y int, r rune, width int, cr ChangeReason) {
@@ -433,7 +451,7 @@ func (s *spanScreen) deleteChars(x int, y int, n int, cr ChangeReason) {
 
 	line := &s.lines[y]
 	// Delete characters from x to x+n, shift remaining chars left, and append spaces at the end
-	replaceRange(line, x, n, Span{}, s.textMode)
+	replaceRangeWide(line, x, n, Span{Style: s.style}, s.textMode, false)
 	// Now append spaces to fill the end to width s.size.X
 	curWidth := lineCellWidth(line)
 	if curWidth < s.size.X {
@@ -615,7 +633,7 @@ func blankSpanLine(width int, style Style) spanLine {
 func resizeLine(line *spanLine, width int, style Style, mode TextReadMode) {
 	cur := lineCellWidth(line)
 	if cur > width {
-		truncateLine(line, width, mode)
+		truncateLine(line, width, style, mode)
 		return
 	}
 	if cur < width {
@@ -826,7 +844,32 @@ func findSpanAtX(line *spanLine, x int) (int, int) {
 // 	line.spans = line.spans[:writeIdx+1]
 // }
 
+// replaceRange replaces the n cells starting at x with insert. A range that
+// starts on the second cell of a wide character keeps that character and
+// inserts after it (the row then grows; see rawWriteSpan).
 func replaceRange(line *spanLine, x int, n int, insert Span, mode TextReadMode) {
+	replaceRangeWide(line, x, n, insert, mode, true)
+}
+
+// replaceRangeWide is replaceRange with the treatment of a wide character cut
+// by the start of the range made explicit: it is kept (text writes) or turned
+// into blanks in insert.Style (erase, delete, truncate). A wide character cut
+// by the end of the range always becomes blanks.
+//
+// It returns the number of cells by which insert landed to the right of x
+// because a wide character was kept (0 otherwise).
+func replaceRangeWide(line *spanLine, x int, n int, insert Span, mode TextReadMode, keepWide bool) int {
+	shift := replaceRangeSpans(line, x, n, insert, mode, keepWide)
+	// The cached width is the sum of the span widths.
+	width := 0
+	for _, sp := range line.spans {
+		width += sp.Width
+	}
+	line.width = width
+	return shift
+}
+
+func replaceRangeSpans(line *spanLine, x int, n int, insert Span, mode TextReadMode, keepWide bool) (shift int) {
 	// Fast return for a no-op insert.
 	if n == 0 && insert.Width == 0 {
 		return
@@ -835,8 +878,9 @@ func replaceRange(line *spanLine, x int, n int, insert Span, mode TextReadMode) 
 	spans := line.spans
 	// Handle empty lines by inserting directly.
 	if len(spans) == 0 {
-		line.spans = append(line.spans[:0], insert)
-		line.width = insert.Width
+		if insert.Width > 0 {
+			line.spans = append(line.spans[:0], insert)
+		}
 		return
 	}
 
@@ -849,14 +893,13 @@ func replaceRange(line *spanLine, x int, n int, insert Span, mode TextReadMode) 
 	}
 
 	// Locate the spans that intersect the replacement window.
-	startFound := false
 	startIdx := len(spans)
 	startOffset := 0
 	pos := 0
 	i := 0
 	for ; i < len(spans); i++ {
 		endPos := pos + spans[i].Width
-		if !startFound && x < endPos {
+		if x < endPos {
 			startIdx = i
 			startOffset = x - pos
 			break
@@ -876,21 +919,24 @@ func replaceRange(line *spanLine, x int, n int, insert Span, mode TextReadMode) 
 		pos = endPos
 	}
 
-	// Clamp to total width (tracked by pos after the scan).
-	totalWidth := pos
-	if x > totalWidth {
-		x = totalWidth
+	// Clamp to the width scanned (the whole line when the window runs past it).
+	scannedWidth := pos
+	if x > scannedWidth {
+		x = scannedWidth
 	}
-	if x+n > totalWidth {
-		n = totalWidth - x
+	if x+n > scannedWidth {
+		n = scannedWidth - x
 		endIdx = len(spans) - 1
 		if endIdx >= 0 {
 			endOffset = spans[endIdx].Width
 		}
 	}
-	if x == 0 && n >= totalWidth {
-		line.spans = append(line.spans[:0], insert)
-		line.width = insert.Width
+	if x == 0 && endIdx == len(spans)-1 && endOffset == spans[endIdx].Width {
+		// the whole line is replaced
+		line.spans = line.spans[:0]
+		if insert.Width > 0 {
+			line.spans = append(line.spans, insert)
+		}
 		return
 	}
 
@@ -898,7 +944,6 @@ func replaceRange(line *spanLine, x int, n int, insert Span, mode TextReadMode) 
 	if startIdx == len(spans) {
 		if insert.Width > 0 {
 			line.spans = append(line.spans, insert)
-			line.width = totalWidth + insert.Width
 		}
 		return
 	}
@@ -906,24 +951,18 @@ func replaceRange(line *spanLine, x int, n int, insert Span, mode TextReadMode) 
 	// Fast paths for in-place replacements inside a single span.
 	if startIdx == endIdx {
 		sp := spans[startIdx]
-		if startOffset == 0 && endOffset == sp.Width {
+		if startOffset == 0 && endOffset == sp.Width && insert.Width > 0 {
 			spans[startIdx] = insert
-			line.width = totalWidth - n + insert.Width
 			return
 		}
-		// Compare styles
-		spFG, _, _ := sp.Style.GetColor(ComponentFG)
-		insertFG, _, _ := insert.Style.GetColor(ComponentFG)
-		spBG, _, _ := sp.Style.GetColor(ComponentBG)
-		insertBG, _, _ := insert.Style.GetColor(ComponentBG)
-		if insert.Width == n && spFG == insertFG && spBG == insertBG {
+		// Same attributes (colours and modes): the text can be patched in place.
+		if insert.Width == n && sp.Style == insert.Style {
 			if sp.Text == "" && insert.Text == "" && sp.Rune == insert.Rune {
 				return
 			}
 			if sp.Text != "" && insert.Text != "" && mode == TextReadModeRune && sp.Width == len(sp.Text) && insert.Width == len(insert.Text) {
 				sp.Text = sp.Text[:startOffset] + insert.Text + sp.Text[startOffset+n:]
 				spans[startIdx] = sp
-				line.width = totalWidth
 				return
 			}
 		}
@@ -932,119 +971,90 @@ func replaceRange(line *spanLine, x int, n int, insert Span, mode TextReadMode) 
 	// Split the boundary spans so we can keep the untouched parts.
 	var left Span
 	hasLeft := false
-	var splitWideAtStart Span // The wide character we're splitting through, if any
+	startFill := 0 // cells of a wide character cut by x that become blanks
 	if startIdx < len(spans) && startOffset > 0 {
-		left, _, splitWideAtStart = splitSpan(spans[startIdx], startOffset, mode)
+		var splitWide Span
+		left, _, splitWide = splitSpan(spans[startIdx], startOffset, mode)
+		if splitWide.Width > 0 {
+			if keepWide {
+				// x is inside a wide character: keep it and insert after it
+				// rather than overwriting it.
+				if left.Width > 0 {
+					left.Text += splitWide.Text
+					left.Width += splitWide.Width
+				} else {
+					left = splitWide
+				}
+				shift = left.Width - startOffset
+			} else {
+				startFill = startOffset - left.Width
+			}
+		}
 		hasLeft = left.Width > 0
 	}
 
 	var right Span
 	hasRight := false
-	var splitWideAtEnd Span // The wide character we're splitting through, if any
-	if endIdx >= 0 && endIdx < len(spans) {
-		if endOffset < spans[endIdx].Width {
-			_, right, splitWideAtEnd = splitSpan(spans[endIdx], endOffset, mode)
-			hasRight = right.Width > 0
+	endFill := 0 // cells of a wide character cut by x+n that become blanks
+	if endIdx >= 0 && endIdx < len(spans) && endOffset < spans[endIdx].Width {
+		var splitWide Span
+		_, right, splitWide = splitSpan(spans[endIdx], endOffset, mode)
+		if splitWide.Width > 0 {
+			endFill = spans[endIdx].Width - endOffset - right.Width
 		}
+		hasRight = right.Width > 0
 	}
 
-	// If we're splitting in the right cell of a wide character at the start,
-	// we should insert after the wide character rather than overwriting it
-	if splitWideAtStart.Width > 0 {
-		// splitSpan gave us the wide character - include it in the left part
-		// and insert after it
-		if hasLeft {
-			// Combine left with the wide character
-			combinedLeft := left
-			combinedLeft.Text = left.Text + splitWideAtStart.Text
-			combinedLeft.Width = left.Width + splitWideAtStart.Width
-			left = combinedLeft
-		} else {
-			// Just use the wide character as the left part
-			left = splitWideAtStart
-			hasLeft = true
-		}
-
-		// The right part already excludes the wide character, so we're good
-		// This effectively turns the operation into an insert after the wide character
+	// The pieces that replace spans[startIdx : endIdx+1].
+	var mid [5]Span
+	insertCount := 0
+	if hasLeft {
+		mid[insertCount] = left
+		insertCount++
 	}
-
-	// If we split a cell at the end, a space should fill in the gap
-	if splitWideAtEnd.Width > 0 {
-		insert.Text = insert.Text + " "
-		insert.Width += 1
+	if startFill > 0 {
+		mid[insertCount] = Span{Style: insert.Style, Rune: ' ', Width: startFill}
+		insertCount++
+	}
+	if insert.Width > 0 {
+		mid[insertCount] = insert
+		insertCount++
+	}
+	if endFill > 0 {
+		mid[insertCount] = Span{Style: insert.Style, Rune: ' ', Width: endFill}
+		insertCount++
+	}
+	if hasRight {
+		mid[insertCount] = right
+		insertCount++
 	}
 
 	// Compute the new slice length and where the suffix begins.
 	prefixLen := startIdx
 	suffixStart := endIdx + 1
-	newLen := prefixLen
-	insertCount := 0
-	if hasLeft {
-		insertCount++
-	}
-	if insert.Width > 0 {
-		insertCount++
-	}
-	if hasRight {
-		insertCount++
-	}
-	newLen += insertCount
+	newLen := prefixLen + insertCount
 	if suffixStart < len(spans) {
 		newLen += len(spans) - suffixStart
 	}
-	newWidth := totalWidth - n + insert.Width
 
 	// Ensure capacity then populate the new span layout.
 	if cap(spans) < newLen {
 		newSpans := make([]Span, newLen)
 		copy(newSpans, spans[:prefixLen])
-		dest := prefixLen
-		if hasLeft {
-			newSpans[dest] = left
-			dest++
-		}
-		if insert.Width > 0 {
-			newSpans[dest] = insert
-			dest++
-		}
-		if hasRight {
-			newSpans[dest] = right
-			dest++
-		}
-		copy(newSpans[dest:], spans[suffixStart:])
+		copy(newSpans[prefixLen:], mid[:insertCount])
+		copy(newSpans[prefixLen+insertCount:], spans[suffixStart:])
 		line.spans = newSpans
-		line.width = newWidth
 		return
 	}
 
-	// Reuse the existing backing array and shift the suffix if needed.
-	line.spans = spans[:newLen]
-	destStart := prefixLen
-	destAfter := destStart + insertCount
+	// Reuse the existing backing array and shift the suffix (copy handles the overlap).
 	suffixLen := len(spans) - suffixStart
-	if suffixLen > 0 && destAfter > suffixStart {
-		copy(line.spans[destAfter:], spans[suffixStart:])
+	line.spans = spans[:newLen]
+	if suffixLen > 0 {
+		copy(line.spans[prefixLen+insertCount:], spans[suffixStart:suffixStart+suffixLen])
 	}
-
-	dest := destStart
-	if hasLeft {
-		line.spans[dest] = left
-		dest++
-	}
-	if insert.Width > 0 {
-		line.spans[dest] = insert
-		dest++
-	}
-	if hasRight {
-		line.spans[dest] = right
-		dest++
-	}
-
-	if suffixLen > 0 && destAfter <= suffixStart {
-		copy(line.spans[destAfter:], spans[suffixStart:])
-	}
-	line.width = newWidth
+	copy(line.spans[prefixLen:], mid[:insertCount])
+	return
 }
 
 func insertSpan(line *spanLine, x int, insert Span, mode TextReadMode) {
@@ -1053,14 +1063,15 @@ func insertSpan(line *spanLine, x int, insert Span, mode TextReadMode) {
 	replaceRange(line, x, 0, insert, mode)
 }
 
-func truncateLine(line *spanLine, width int, mode TextReadMode) {
+func truncateLine(line *spanLine, width int, style Style, mode TextReadMode) {
 	if width <= 0 {
 		line.spans = nil
 		line.width = 0
 		return
 	}
-	// Use replaceRange to truncate: delete everything from width to end
-	replaceRange(line, width, lineCellWidth(line)-width, Span{}, mode)
+	// Use replaceRange to truncate: delete everything from width to end. A wide
+	// character cut by the new edge becomes a blank in style.
+	replaceRangeWide(line, width, lineCellWidth(line)-width, Span{Style: style}, mode, false)
 }
 
 func (s *spanScreen) mergeIntoPreviousCell(text string) {
